@@ -4,6 +4,9 @@ package main
 //
 //   exchange <ver> <conf> <txdr> <txch> <fkey> <skey> <enckey> <appkey> <tamper> <frame...>
 //
+// tamper: 0 none; t < 2^40: kind t%8 (bit of the frame, of a key, FCnt upper half, ConfFCnt, TxDr, TxCh, MAC version) with argument t/8;
+// t >= 2^40: the receiver validates for the opposite direction.
+//
 // result: ERR (the sender failed) or
 //   ok <serialised hex> dec-ERR | notdata | val-ERR | rejected | accepted fopts-ERR | accepted frm-ERR | accepted <frame>
 
@@ -96,7 +99,10 @@ func init() {
 		// ---- tampering: one single-bit corruption or one parameter mismatch
 		rver, rconf, rtxdr, rtxch, rfkey, rskey := ver, uint32(conf), uint8(txdr), uint8(txch), fkey, skey
 		fcntHi := fcnt & 0xffff0000
-		if tamper != 0 {
+		// tamper >= 2^40: no corruption, but the receiver takes the frame for the other direction (a device validating with the
+		// downlink function a frame of uplink type, and the reverse)
+		otherDir := tamper >= 1<<40
+		if tamper != 0 && !otherDir {
 			kind, arg := tamper%8, tamper/8
 			switch kind {
 			case 0:
@@ -131,7 +137,7 @@ func init() {
 		qm.FHDR.FCnt = fcntHi | (qm.FHDR.FCnt & 0xffff)
 		qUp := q.MHDR.MType == lw.UnconfirmedDataUp || q.MHDR.MType == lw.ConfirmedDataUp
 		var valid bool
-		if qUp {
+		if qUp != otherDir {
 			valid, e = q.ValidateUplinkDataMIC(lw.MACVersion(rver), rconf, rtxdr, rtxch, rfkey, rskey)
 		} else {
 			valid, e = q.ValidateDownlinkDataMIC(lw.MACVersion(rver), rconf, rskey)
